@@ -340,11 +340,19 @@ template <typename B> std::string runOp(const std::string & op, std::istringstre
     return out;
   }
   if (op == "alts") {      // alts <hex> off:hexword(8 digits, value)...   4-byte little-endian word replaced at off
-    is >> h; std::string b = unhex(h); std::string out, a;
+    is >> h; std::string b = unhex(h); std::string out, a, tail;
     while (is >> a) {
       auto c = a.find(':'); std::size_t off = std::stoull(a.substr(0, c)); std::uint32_t w = (std::uint32_t)std::stoull(a.substr(c + 1), nullptr, 16);
       std::string m = b; if (off + 4 > m.size()) throw bad_tokens(); std::memcpy(&m[off], &w, 4);
-      out += loadPlain<F>(m).kind;
+      char kind = loadPlain<F>(m).kind;
+      // the same altered dump at the head of a long seekable stream that goes on with complete dumps (a load consumes one dump:
+      // what follows it has no say): 'T' when that stream yields a field although the altered dump alone is rejected
+      if (kind == 'E') {
+        if (tail.empty()) { tail = b; while (tail.size() < (std::size_t(1) << 17)) tail += b; }
+        std::istringstream ss(m + tail);
+        try { F g(ss); kind = 'T'; } catch (const std::exception &) {}
+      }
+      out += kind;
     }
     return out.empty() ? "-" : out;
   }
